@@ -162,10 +162,11 @@ Qed.
 
 (* the whole table for an event whose struct checks the room ID with checkID (eventV1, eventV2),
    in a version of the lenient set other than the pseudo-ID version, with a sender and room ID of
-   the right shape *)
+   the right shape; the event is otherwise valid, in particular its room ID is one the room-ID
+   parser accepts (since the repair of F9 an event with any other room ID is refused) *)
 Theorem check_fields_table struct v json_len type sk sender room :
   (struct =? 3) = false -> lenient_version v = true -> bytes_eqb v pseudo_id_version = false ->
-  shaped 64 sender -> shaped 33 room ->
+  shaped 64 sender -> shaped 33 room -> room_valid room = true ->
   let verdict := event_checks struct v false json_len type sk sender room in
   (hard_limit_exceeded json_len type sk sender room ->
    no_byte_only_excess type sk sender room -> verdict = VTooLarge false)
@@ -173,11 +174,15 @@ Theorem check_fields_table struct v json_len type sk sender room :
       byte_limit_exceeded type sk sender room -> verdict = VTooLarge true)
   /\ (all_within_limits json_len type sk sender room -> verdict = VOk).
 Proof.
-  intros H1 H2 H3 H4 H5. repeat split.
+  intros H1 H2 H3 H4 H5 H6. repeat split.
   - apply table_refused; assumption.
   - apply table_persistable; assumption.
   - apply table_ok; assumption.
 Qed.
+
+Example check_fields_table_room_premise_satisfiable :
+  shaped 33 (bs "!r:x") /\ room_valid (bs "!r:x") = true.
+Proof. split; [split; [reflexivity|eexists; reflexivity]|vm_compute; reflexivity]. Qed.
 
 (* ---------------- room versions ---------------- *)
 
